@@ -304,11 +304,13 @@ class Normaliser:
     # ---- driver
     def run(self):
         self.n1_module_constants()
+        self.n1b_class_constants()
         self.n9_literal_reflection()
         self.n11_split_tuple_assign()
         self.n2_stable_aliases()
         for _ in range(3):
             before = dict(self.stats)
+            self.n7_pure_locals()
             self.n5_specialise()
             self.n9_literal_reflection()
             self.n10_tail_duplication()
@@ -317,12 +319,16 @@ class Normaliser:
             self.n4_inline_expression_helpers()
             self.n8_inline_procedures()
             self.n13_inline_tail_calls()
+            self.n18_inline_structured_returns()
+            self.n11_split_tuple_assign()
+            self.n19_small()
             self.n9_literal_reflection()
             self.n2_stable_aliases()
             if self.stats == before:
                 break
         self.n16_scan_lookup_to_loop()
         self.n14_copy_propagation()
+        self.n17_strip_bool()
         self.n7_pure_locals()
         self.n15_elsify()
         for tree in self.trees.values():
@@ -362,6 +368,53 @@ class Normaliser:
                 if c:
                     self.note('N1', f'{rel}: {c} use(s) of module constants in {fn.name}')
 
+    def n1b_class_constants(self):
+        """class-level NAME = <literal> read as self.NAME / Cls.NAME: replaced by the literal when NAME is never bound through an instance"""
+        consts = {}
+        for cls in self.classes:
+            for n in cls.body:
+                if isinstance(n, ast.Assign) and len(n.targets) == 1 and isinstance(n.targets[0], ast.Name):
+                    v = n.value
+                    lit = isinstance(v, ast.Constant) or (isinstance(v, ast.Tuple) and all(isinstance(e, ast.Constant) for e in v.elts))
+                    nm = n.targets[0].id
+                    if lit and nm not in self.init_attrs and nm not in self.mutable_attrs and '*' not in self.mutable_attrs:
+                        consts.setdefault(nm, []).append(v)
+        consts = {k: v[0] for k, v in consts.items() if len(v) == 1 and k not in self.defs and k not in self.vocab}
+        if not consts:
+            return
+        nz = self
+
+        class T(ast.NodeTransformer):
+            def visit_Attribute(self, node):
+                self.generic_visit(node)
+                if isinstance(node.ctx, ast.Load) and node.attr in consts and isinstance(node.value, ast.Name) \
+                        and (node.value.id == 'self' or node.value.id in {c.name for c in nz.classes}):
+                    new = copy.deepcopy(consts[node.attr])
+                    for x in ast.walk(new):
+                        ast.copy_location(x, node)
+                    nz.note('N1', f'class constant {node.attr} propagated')
+                    return new
+                return node
+        for tree in self.trees.values():
+            T().visit(tree)
+
+    # ---- N17
+    def n17_strip_bool(self):
+        """bool(e) in a test position (if / while / not / and / or / conditional expression) is e"""
+        def strip(e):
+            if isinstance(e, ast.Call) and isinstance(e.func, ast.Name) and e.func.id == 'bool' and len(e.args) == 1 and not e.keywords:
+                self.note('N17', 'bool(e) in test position -> e')
+                return strip(e.args[0])
+            if isinstance(e, ast.BoolOp):
+                e.values = [strip(v) for v in e.values]
+            elif isinstance(e, ast.UnaryOp) and isinstance(e.op, ast.Not):
+                e.operand = strip(e.operand)
+            return e
+        for tree in self.trees.values():
+            for n in ast.walk(tree):
+                if isinstance(n, (ast.If, ast.While, ast.IfExp, ast.Assert)):
+                    n.test = strip(n.test)
+
     # ---- N2
     def n2_stable_aliases(self):
         for rel, tree in self.trees.items():
@@ -396,6 +449,29 @@ class Normaliser:
         i = 0
         while i < len(body):
             st = body[i]
+            if isinstance(st, ast.For) and isinstance(st.target, ast.Tuple) and all(isinstance(e, ast.Name) for e in st.target.elts) and not st.orelse \
+                    and len(st.body) == 1 and isinstance(st.body[0], ast.If) and not st.body[0].orelse and len(st.body[0].body) == 1 \
+                    and isinstance(st.body[0].body[0], ast.Return) and st.body[0].body[0].value is not None:
+                # (d) for i, v in enumerate(L): if P: return i, v   /   return None, None
+                iff = st.body[0]
+                rv = iff.body[0].value
+                names = {e.id for e in st.target.elts}
+                rv_ok = (isinstance(rv, ast.Name) and rv.id in names) or (isinstance(rv, ast.Tuple) and all(isinstance(e, ast.Name) and e.id in names for e in rv.elts))
+                nxt = body[i + 1] if i + 1 < len(body) else None
+                dflt = nxt.value if isinstance(nxt, ast.Return) else None
+                dflt_ok = dflt is not None and (isinstance(dflt, ast.Constant) or (isinstance(dflt, ast.Tuple) and all(isinstance(e, ast.Constant) for e in dflt.elts)))
+                pure_test = not any(isinstance(x, (ast.Yield, ast.YieldFrom, ast.Await, ast.NamedExpr)) for x in ast.walk(iff.test))
+                if rv_ok and dflt_ok and pure_test:
+                    ge = ast.GeneratorExp(elt=rv, generators=[ast.comprehension(target=st.target, iter=st.iter, ifs=[iff.test], is_async=0)])
+                    new = ast.Return(value=ast.Call(func=ast.Name(id='next', ctx=ast.Load()), args=[ge, dflt], keywords=[]))
+                    for x in ast.walk(new):
+                        if not hasattr(x, 'lineno'):
+                            ast.copy_location(x, st)
+                    ast.copy_location(new, st)
+                    body[i] = new
+                    del body[i + 1]
+                    self.note('N3', f'{rel}:{fn.name}: search loop over {ast.unparse(st.iter)} -> next(...)')
+                    continue
             if isinstance(st, ast.For) and isinstance(st.target, ast.Name) and not st.orelse and len(st.body) == 1 \
                     and isinstance(st.body[0], ast.If) and not st.body[0].orelse and len(st.body[0].body) >= 1:
                 iff = st.body[0]
@@ -852,9 +928,70 @@ class Normaliser:
             return all(Normaliser._pure_read(v, sn) for v in e.values)
         if isinstance(e, ast.UnaryOp) and isinstance(e.op, (ast.Not, ast.USub)):
             return Normaliser._pure_read(e.operand, sn)
-        if isinstance(e, ast.Call) and isinstance(e.func, ast.Name) and e.func.id == 'len' and len(e.args) == 1 and not e.keywords:
+        if isinstance(e, ast.Call) and isinstance(e.func, ast.Name) and e.func.id in ('len', 'bool') and len(e.args) == 1 and not e.keywords:
             return Normaliser._pure_read(e.args[0], sn)
+        if isinstance(e, ast.Call) and isinstance(e.func, ast.Name) and e.func.id == 'getattr' and len(e.args) == 2 and not e.keywords:
+            return Normaliser._pure_read(e.args[0], sn) and Normaliser._pure_read(e.args[1], sn)
+        if isinstance(e, ast.JoinedStr):
+            return all(isinstance(v, ast.Constant) or (isinstance(v, ast.FormattedValue) and v.format_spec is None and Normaliser._pure_read(v.value, sn))
+                       for v in e.values)
         return False
+
+    # ---- N19 / N20 / N21: small local canonicalisations
+    def n19_small(self):
+        for rel, tree in self.trees.items():
+            for fn in fn_nodes(tree):
+                self._n19_block(fn, fn.body, rel)
+
+    def _n19_block(self, fn, body, rel):
+        i = 0
+        while i < len(body):
+            st = body[i]
+            # N21: del L[i]  ->  L.pop(i)
+            if isinstance(st, ast.Delete) and len(st.targets) == 1 and isinstance(st.targets[0], ast.Subscript) and not isinstance(st.targets[0].slice, ast.Slice):
+                t = st.targets[0]
+                call = ast.Call(func=ast.Attribute(value=t.value, attr='pop', ctx=ast.Load()), args=[t.slice], keywords=[])
+                new = ast.Expr(value=call)
+                for x in ast.walk(new):
+                    if not hasattr(x, 'lineno'):
+                        ast.copy_location(x, st)
+                ast.copy_location(new, st)
+                body[i] = new
+                self.note('N21', f'{rel}:{fn.name}: del {ast.unparse(t)} -> .pop(...)')
+                st = new
+            # N19: for e in L: if P: X = e; break  else: X = <const>   ->   X = <const> ; for ...
+            if isinstance(st, ast.For) and len(st.orelse) == 1 and isinstance(st.orelse[0], ast.Assign) and len(st.orelse[0].targets) == 1 \
+                    and isinstance(st.orelse[0].targets[0], ast.Name) and isinstance(st.orelse[0].value, ast.Constant) and len(st.body) == 1 \
+                    and isinstance(st.body[0], ast.If) and not st.body[0].orelse and st.body[0].body and isinstance(st.body[0].body[-1], ast.Break):
+                x = st.orelse[0].targets[0].id
+                sets = [b for b in st.body[0].body if isinstance(b, ast.Assign) and len(b.targets) == 1 and isinstance(b.targets[0], ast.Name) and b.targets[0].id == x]
+                reads_x = any(isinstance(n, ast.Name) and n.id == x and isinstance(n.ctx, ast.Load) for n in ast.walk(st))
+                if sets and not reads_x:
+                    init = st.orelse[0]
+                    st.orelse = []
+                    body.insert(i, init)
+                    self.note('N19', f'{rel}:{fn.name}: for/else default of {x} hoisted before the loop')
+                    i += 1
+            # N20: a = b (both locals), b never used afterwards, a bound once  ->  rename a to b
+            if isinstance(st, ast.Assign) and len(st.targets) == 1 and isinstance(st.targets[0], ast.Name) and isinstance(st.value, ast.Name) \
+                    and st.value.id != 'self' and body is fn.body:
+                a, b = st.targets[0].id, st.value.id
+                sn = stored_names(fn)
+                rest = body[i + 1:]
+                b_later = any(isinstance(n, ast.Name) and n.id == b for s_ in rest for n in ast.walk(s_))
+                a_before = any(isinstance(n, ast.Name) and n.id == a for s_ in body[:i] for n in ast.walk(s_))
+                params = {p.arg for p in fn.args.args}
+                if sn.get(a, 0) == 1 and not b_later and not a_before and b in sn and b not in params and a != b:
+                    for s_ in rest:
+                        for n in ast.walk(s_):
+                            if isinstance(n, ast.Name) and n.id == a:
+                                n.id = b
+                    del body[i]
+                    self.note('N20', f'{rel}:{fn.name}: local {a} is a plain rename of {b}')
+                    continue
+            for sub in self._sub_blocks(st):
+                self._n19_block(fn, sub, rel)
+            i += 1
 
     # ---- N15
     def n15_elsify(self):
@@ -948,6 +1085,121 @@ class Normaliser:
                     continue
             for sub in self._sub_blocks(st):
                 self._n16_block(fn, sub, rel)
+            i += 1
+
+    # ---- N18
+    @staticmethod
+    def _returns_structured(stmts) -> bool:
+        """every path through stmts ends in `return <expr>` / raise, and returns occur only in those tail positions"""
+        if not stmts:
+            return False
+        for st in stmts[:-1]:
+            if any(isinstance(x, ast.Return) for x in ast.walk(st)):
+                return False
+        last = stmts[-1]
+        if isinstance(last, ast.Return):
+            return last.value is not None
+        if isinstance(last, ast.Raise):
+            return True
+        if isinstance(last, ast.If) and last.orelse:
+            return Normaliser._returns_structured(last.body) and Normaliser._returns_structured(last.orelse)
+        return False
+
+    @staticmethod
+    def _returns_to_assign(stmts, target):
+        out = []
+        for st in stmts:
+            if isinstance(st, ast.Return):
+                a = ast.Assign(targets=[copy.deepcopy(target)], value=st.value)
+                out.append(ast.copy_location(a, st))
+            elif isinstance(st, ast.If):
+                st.body = Normaliser._returns_to_assign(st.body, target)
+                st.orelse = Normaliser._returns_to_assign(st.orelse, target)
+                out.append(st)
+            else:
+                out.append(st)
+        return out
+
+    def _callable_helpers(self):
+        """name -> (kind, fn) for private, non-anchor helpers defined exactly once: methods ('m') and module-level functions ('f')"""
+        out = {}
+        for name in list(self.defs):
+            el = self.eligible_helper(name)
+            if el is not None:
+                out[name] = ('m', el[1])
+        counts = {}
+        for rel, tree in self.trees.items():
+            for n in tree.body:
+                if isinstance(n, ast.FunctionDef):
+                    counts.setdefault(n.name, []).append(n)
+        for name, fns in counts.items():
+            if len(fns) == 1 and is_private(name) and name not in self.vocab and name not in out and name not in self.defs and not fns[0].decorator_list:
+                out[name] = ('f', fns[0])
+        return out
+
+    def n18_inline_structured_returns(self):
+        """T = self.h(args) / T = h(args)  ->  the body of h with every `return E` turned into `T = E`; h is private, defined once, its returns are
+        all in tail position of an if/else tree (after N15), no loops around them, not a generator"""
+        self.n15_elsify()
+        helpers = {}
+        for name, (kind, fn) in self._callable_helpers().items():
+            b = body_without_doc(fn)
+            if not self._returns_structured(b):
+                continue
+            if any(isinstance(x, (ast.Yield, ast.YieldFrom, ast.Await, ast.Global, ast.Nonlocal, ast.FunctionDef, ast.Lambda, ast.ClassDef)) for s_ in b for x in ast.walk(s_)):
+                continue
+            if any((isinstance(x, ast.Attribute) and x.attr == name) or (isinstance(x, ast.Name) and x.id == name) for s_ in b for x in ast.walk(s_)):
+                continue
+            if sum(len(list(ast.walk(s_))) for s_ in b) > 300:
+                continue
+            helpers[name] = (kind, fn, b)
+        if not helpers:
+            return
+        for rel, tree in self.trees.items():
+            for host in list(fn_nodes(tree)):
+                self._n18_block(host, host.body, helpers, rel)
+
+    def _n18_block(self, host, body, helpers, rel):
+        i = 0
+        while i < len(body):
+            st = body[i]
+            call = st.value if isinstance(st, ast.Assign) and len(st.targets) == 1 and isinstance(st.value, ast.Call) and (
+                isinstance(st.targets[0], (ast.Name, ast.Attribute))
+                or (isinstance(st.targets[0], ast.Tuple) and all(isinstance(e, ast.Name) for e in st.targets[0].elts))) else None
+            name = None
+            if call is not None:
+                f = call.func
+                if isinstance(f, ast.Attribute) and isinstance(f.value, ast.Name) and f.value.id == 'self' and f.attr in helpers and helpers[f.attr][0] == 'm':
+                    name = f.attr
+                elif isinstance(f, ast.Name) and f.id in helpers and helpers[f.id][0] == 'f':
+                    name = f.id
+            if name is not None and helpers[name][1] is not host:
+                kind, fn, hb = helpers[name]
+                static = kind == 'f' or has_decorator(fn, 'staticmethod')
+                m = bind_args(fn, call, has_self=not static)
+                sn = stored_names(fn)
+                if m is not None and all(sn.get(p, 0) == 1 for p in m):
+                    host_names = set(stored_names(host)) | {x.id for x in ast.walk(host) if isinstance(x, ast.Name)}
+                    new = copy.deepcopy(hb)
+                    for x in [y for s_ in new for y in ast.walk(s_)]:
+                        if isinstance(x, ast.Name) and x.id in sn and x.id not in m and x.id != 'self' and x.id in host_names:
+                            x.id = f'{x.id}__{name.strip("_")}'
+                    mapping, temps = {}, []
+                    for p_, a in m.items():
+                        if isinstance(a, (ast.Constant, ast.Name)) or self.stable_chain(a):
+                            mapping[p_] = a
+                        else:
+                            tn = f'{p_}__{name.strip("_")}'
+                            temps.append(ast.copy_location(ast.Assign(targets=[ast.Name(id=tn, ctx=ast.Store())], value=a), st))
+                            mapping[p_] = ast.Name(id=tn, ctx=ast.Load())
+                    new, _ = substitute(new, mapping)
+                    new = temps + self._returns_to_assign(new, st.targets[0])
+                    body[i:i + 1] = new
+                    self.note('N18', f'{rel}:{host.name}: {name}(...) with structured returns inlined into an assignment')
+                    i += len(new)
+                    continue
+            for sub in self._sub_blocks(st):
+                self._n18_block(host, sub, helpers, rel)
             i += 1
 
     # ---- N13
@@ -1074,7 +1326,7 @@ class Normaliser:
         while i < len(body):
             st = body[i]
             if isinstance(st, ast.Expr) and isinstance(st.value, ast.Call) and isinstance(st.value.func, ast.Name) and st.value.func.id in helpers \
-                    and helpers[st.value.func.id][0] == rel and host is not helpers[st.value.func.id][1]:
+                    and host is not helpers[st.value.func.id][1]:
                 name = st.value.func.id
                 _, fn, hb = helpers[name]
                 m = bind_args(fn, st.value, has_self=False)
@@ -1216,6 +1468,8 @@ class _CopyProp:
         return sum(1 for x in ast.walk(node) if isinstance(x, ast.Name) and x.id == self.name and isinstance(x.ctx, ast.Load))
 
     def _dirties(self, node) -> bool:
+        if not self.reads:
+            return False        # the copy reads only locals that are bound once: nothing can invalidate it
         for x in ast.walk(node):
             if isinstance(x, (ast.Yield, ast.YieldFrom, ast.Await)):
                 return True
